@@ -59,7 +59,7 @@ def _board(bid, owner, declarer, dbl, vul, plays, stats=None):
             # plays that are REFUSED (out of turn, card of another seat, card already played) are not plays: offered in
             # between, they must not win, lead, count or enter the history (that they are refused cleanly is C05's business)
             for o, env in [(None, b.env)] + list(enumerate(b.obs or [])):
-                for card, seat, what in PL.fault_candidates(b, observer=o)[: 1 + (i + declarer) % 3]:
+                for card, seat, what in PL.fault_candidates(b, observer=o):
                     try:
                         env.play_card_by_player(be.CARD[card], be.SEAT[seat])
                     except Exception:  # noqa
